@@ -9,6 +9,7 @@ PAIRS = [
     # (assumed-in file, impl selector, fn)   (proved-in file, impl selector, fn)
     (("contracts/common_api_assumed.inc", "HeaderField", "equiv"), ("contracts/u_parse.rs.tpl", "HeaderField", "equiv")),
     (("contracts/common_api_assumed.inc", "HeaderField", "as_str"), ("contracts/u_parse.rs.tpl", "HeaderField", "as_str")),
+    (("contracts/common_api_assumed.inc", "Method", "as_str"), ("contracts/u_parse.rs.tpl", "Method", "as_str")),
     (("contracts/u_newreq.rs.tpl", "EqualReader<R>", "new"), ("contracts/u_readers.rs.tpl", "EqualReader<R>", "new")),
     (("contracts/u_newreq.rs.tpl", "FusedReader<R>", "new"), ("contracts/u_readers.rs.tpl", "FusedReader<R>", "new")),
     (("contracts/u_resp.rs.tpl", None, "choose_transfer_encoding"), ("contracts/u_cte.rs.tpl", None, "choose_transfer_encoding")),
